@@ -262,6 +262,8 @@ impl Run {
                 _ => {}
             }
         }
+        // threads that have a pending notification on offer before this grant (lost wakeups show here)
+        let nf: Vec<String> = self.ctl.settle(2).iter().filter(|t| t.enabled.contains(&Grant::Notified)).map(|t| t.name.clone()).collect();
         self.ctl.grant(tv.tid, g.clone());
         let _ = self.ctl.settle(2);
         let evs: Vec<Value> = verif::trace_drain()
@@ -286,7 +288,7 @@ impl Run {
         }
         self.trace.push(json!({
             "t": tv.name, "pt": tv.point.kind(), "g": grant_name(&g),
-            "cmd": cmd.unwrap_or(json!({"op": "none"})), "evs": evs}));
+            "cmd": cmd.unwrap_or(json!({"op": "none"})), "evs": evs, "nf": nf}));
     }
     fn finish(mut self) -> Vec<Value> {
         // Let any remaining threads run to completion (empty command queues
